@@ -348,8 +348,43 @@ pub fn run_hx_prop(prop: &'static str, tier: &str) -> Outcome {
     }
 }
 
+/// C13/C18/C20: probes on every HX state + GRAPHGEN, one exploration-level evidence.
+pub fn run_hx_plus_graphs(prop: &'static str, tier: &str) -> Outcome {
+    let t0 = Instant::now();
+    let mut o = run_hx_prop(prop, tier);
+    let (acc, rule) = crate::gen::graphgen::run(prop, tier);
+    let hx_cov = o.coverage.clone();
+    let probe_evals: u64 = hx_cov["runs"].as_array().map_or(0, |r| r.iter().map(|x| x["probe_runs"].as_u64().unwrap_or(0)).sum());
+    let mut samples: Vec<serde_json::Value> = acc.samples.clone();
+    if let Some(s) = hx_cov["samples"].as_array() {
+        samples.extend(s.iter().take(4).cloned());
+    }
+    o.level = "exploration".to_string();
+    o.coverage = json!({
+        "evaluations": acc.evaluations + probe_evals,
+        "distinct_nontrivial": acc.nontrivial + hx_cov["states"].as_u64().unwrap_or(0),
+        "rule": format!("{rule}. PLUS the same probe on every state of the HX explorations (histories with collections, recycled slots, data): distinct states are distinct cases. distinct_nontrivial = graphs inside the limits + distinct HX states"),
+        "samples": samples,
+        "exhaustive": true,
+        "graphgen": {"evaluations": acc.evaluations, "graphs": acc.nontrivial, "counters": acc.counters, "failing_cases": acc.fail_total},
+        "hx": hx_cov,
+    });
+    if acc.nontrivial == 0 && acc.fail_total == 0 {
+        o.machinery.push("GRAPHGEN built no graph".to_string());
+    }
+    o.failure_total += acc.fail_total;
+    o.failures.extend(acc.failures);
+    o.wall_s = t0.elapsed().as_secs_f64();
+    o
+}
+
 pub fn run(prop: &str, tier: &str) -> Option<Outcome> {
     match prop {
+        "C11" => return Some(crate::gen::treegen::run_c11(tier)),
+        "C12" => return Some(crate::gen::treegen::run_c12(tier)),
+        "C13" => return Some(run_hx_plus_graphs("C13", tier)),
+        "C18" => return Some(run_hx_plus_graphs("C18", tier)),
+        "C20" => return Some(run_hx_plus_graphs("C20", tier)),
         "C15" => return Some(crate::gen::hexgen::run_c15(tier)),
         "C16" => return Some(crate::gen::hexgen::run_c16(tier)),
         "C17" => return Some(crate::gen::labelgen::run_c17(tier)),
